@@ -796,6 +796,10 @@ def run(res, tier, seed, replay=None):
             n, fnd = run_stream(b["harness"], msessions, exact_env)
             report(sp["name"], fnd, True)
             per.append({"config": sp["name"], "mode": "asan+ubsan exact, masked subset", "lines": n, "sessions": len(msessions), "findings": len(fnd)})
+            if sp["name"].startswith("c64"):      # the C masked-word backend loads caller bytes itself: misaligned buffers there too
+                n, fnd = run_stream(b["harness"], msessions, dict(exact_env, VERIF_MISALIGN="3"))
+                report(sp["name"] + "+misalign3", fnd, True)
+                per.append({"config": sp["name"], "mode": "asan+ubsan exact, masked subset, buffers misaligned by 3", "lines": n, "sessions": len(msessions), "findings": len(fnd)})
         flush_reports()
         t3 = time.time()
         # ---------------- x_c12: exact blocks under the sanitizers, guard pages for the plain (assembly) builds
